@@ -169,7 +169,9 @@ Section Prune.
       - apply In_tables_apply in Hin. cbn in Hin. tauto.
       - apply In_tables_apply in Hin. cbn in Hin. apply In_tables_apply in Hin. cbn in Hin. tauto. }
     apply safe_seq_app.
-    - destruct (prune_table_writes_cases t) as [E | E]; rewrite E; cbn; repeat split; auto; apply Hti.
+    - destruct (prune_table_writes_cases t) as [E | E]; rewrite E; cbn [safe_seq].
+      + split; [exact Hdt|]. split; [apply (Hti s')|]. split; [split; exact I | exact I].
+      + split; [exact Hdt|]. split; [split; exact I|]. split; [apply (Hti s') | exact I].
     - apply IH; [intros; apply HL; right; auto|].
       rewrite dels_refs; auto.
       destruct (prune_table_writes_cases t) as [E | E]; rewrite E; repeat constructor.
